@@ -11,12 +11,14 @@
 package snowx
 
 import (
+	"bytes"
 	"context"
 	"crypto/sha256"
 	"encoding/json"
 	"errors"
 	"fmt"
 	"math/rand/v2"
+	"runtime"
 	"sync"
 	"sync/atomic"
 	"testing"
@@ -53,6 +55,9 @@ type blk struct {
 
 	id    ids.ID
 	bytes []byte
+	// chain is the recorder that parsed / built this block object (nil for
+	// objects made by the engine model). Set before the object is published.
+	chain *recChain
 }
 
 func makeBlk(parent ids.ID, height uint64, ts int64, nonce uint64, invalid bool, flaky int) *blk {
@@ -89,7 +94,19 @@ func (b *blk) GetID() ids.ID       { return b.id }
 func (b *blk) GetParent() ids.ID   { return b.Prnt }
 func (b *blk) GetTimestamp() int64 { return b.Tmstmp }
 func (b *blk) GetBytes() []byte    { return b.bytes }
-func (b *blk) GetHeight() uint64   { return b.Hght }
+
+
+// GetHeight is also an observation point of the fixture: the wrapper calls it
+// on the block it is looking at (e.g. the last accepted block during a lookup
+// by height), so the recorder can yield there or let the engine thread run an
+// Accept before the call returns (see recChain.heightHook). It never changes
+// the value returned.
+func (b *blk) GetHeight() uint64 {
+	if c := b.chain; c != nil {
+		c.heightHook(b)
+	}
+	return b.Hght
+}
 func (b *blk) GetContext() *block.Context {
 	if b.PCtx == nil {
 		return nil
@@ -237,6 +254,7 @@ func (c *caseCtx) violation(key string, format string, args ...any) {
 	c.mu.Lock()
 	c.nvio++
 	c.mu.Unlock()
+	c.r.Count("violations_"+key, 1) // how often each key fired (the run keeps only the first witnesses)
 	c.r.Violation(c.prop+"/"+key, c.witness(), format, args...)
 }
 
@@ -306,6 +324,63 @@ type recChain struct {
 	// block is written to the index and right after (the latter is the window
 	// of the hook point snow.accept.afterIndex).
 	onIndex atomic.Pointer[func(b *blk, phase string)]
+
+	// forced, when set, is an armed lookup window (see forcedWin); yieldHeights
+	// makes every 4th GetHeight call on a block of this chain yield the
+	// processor (reader stress cases).
+	forced       atomic.Pointer[forcedWin]
+	yieldHeights atomic.Bool
+	heightCalls  atomic.Uint64
+}
+
+// forcedWin is one armed window: the next GetHeight call that goroutine goid
+// makes on a block object with the given id lets the engine thread run (close
+// of trigger) and returns only after the engine thread is done (close of
+// done). This is the schedule "the lookup goroutine is descheduled while it
+// inspects the last accepted block, the engine accepts the next block".
+type forcedWin struct {
+	id      ids.ID
+	goid    uint64
+	fired   atomic.Bool
+	escaped atomic.Bool
+	trigger chan struct{}
+	done    chan struct{}
+}
+
+// forcedEscape bounds the time a lookup is held inside GetHeight. It is a
+// liveness escape for wrappers that inspect the block while holding a lock the
+// Accept needs (then the window is not a feasible schedule); no verdict
+// depends on it.
+const forcedEscape = time.Second
+
+func (c *recChain) heightHook(b *blk) {
+	if w := c.forced.Load(); w != nil && b.id == w.id && curGoid() == w.goid && w.fired.CompareAndSwap(false, true) {
+		close(w.trigger)
+		select {
+		case <-w.done:
+		case <-time.After(forcedEscape):
+			w.escaped.Store(true)
+		}
+		return
+	}
+	if c.yieldHeights.Load() && c.heightCalls.Add(1)&3 == 0 {
+		runtime.Gosched()
+	}
+}
+
+// curGoid returns the id of the calling goroutine (parsed from its stack
+// header "goroutine N [running]:").
+func curGoid() uint64 {
+	var buf [48]byte
+	n := runtime.Stack(buf[:], false)
+	var id uint64
+	for _, ch := range buf[len("goroutine "):n] {
+		if ch < '0' || ch > '9' {
+			break
+		}
+		id = id*10 + uint64(ch-'0')
+	}
+	return id
 }
 
 func (c *recChain) setOnIndex(f func(b *blk, phase string)) {
@@ -440,7 +515,14 @@ func (c *recChain) Initialize(ctx context.Context, in snow.ChainInput, vm *xvm) 
 
 func (c *recChain) SetConsensusIndex(ci *xindex) { c.ci = ci }
 
-func (c *recChain) ParseBlock(_ context.Context, raw []byte) (*blk, error) { return parseBlk(raw) }
+func (c *recChain) ParseBlock(_ context.Context, raw []byte) (*blk, error) {
+	b, err := parseBlk(raw)
+	if err != nil {
+		return nil, err
+	}
+	b.chain = c
+	return b, nil
+}
 
 var errNoParent = errors.New("snowx: parent output missing")
 
@@ -450,6 +532,13 @@ func (c *recChain) knownOutput(o *outBlk) bool {
 	}
 	_, ok := c.outputs[o]
 	return ok
+}
+
+// isOutputOf: o is an Output this chain produced for block id.
+func (c *recChain) isOutputOf(o *outBlk, id ids.ID) bool {
+	c.mu.Lock()
+	defer c.mu.Unlock()
+	return c.knownOutput(o) && o.id == id
 }
 
 func (c *recChain) BuildBlock(_ context.Context, blockCtx *block.Context, parent *outBlk) (*blk, *outBlk, error) {
@@ -464,6 +553,7 @@ func (c *recChain) BuildBlock(_ context.Context, blockCtx *block.Context, parent
 		pctx = &blockCtx.PChainHeight
 	}
 	b := makeBlkCtx(parent.id, parent.Hght+1, parent.Tmstmp+1, c.buildNonce, false, 0, pctx)
+	b.chain = c
 	o := &outBlk{blk: b, State: foldState(parent.State, b.id), Src: "build"}
 	c.outputs[o] = struct{}{}
 	return b, o, nil
@@ -687,6 +777,21 @@ type engine struct {
 	probeP int // % of accepts during which blocks are looked up by id from inside the accept (see probeAccept)
 	// acceptErrKey, when set, classifies a failing Accept (default engine-call-error)
 	acceptErrKey string
+	// firstHandleP: % of the verifications that go through the FIRST wrapper the
+	// engine got for the block (a real engine keeps the block object of its first
+	// parse as the pending block and drops later parses); otherwise any handle.
+	firstHandleP int
+	// checkKnown: judge what ParseBlock returns for blocks the VM has verified
+	// or accepted (see reparse); off in C21 where blocks are verified vacuously.
+	checkKnown bool
+	// forceP: % of the accepts issued exactly while a lookup by height is in
+	// flight (C20, see acceptDuringLookup).
+	forceP int
+	// hlog, when set, is the lock-free copy of the accepted chain by height the
+	// hammering readers judge against; acceptSeq is bumped before and after
+	// every Accept call of the engine thread.
+	hlog      *heightLog
+	acceptSeq atomic.Uint64
 
 	lag     int // accepts issued - permits granted (only while the gate is closed)
 	maxSeen int
@@ -800,6 +905,10 @@ func (e *engine) reparse(n *node) {
 		e.fail("parse-wrong-block", "ParseBlock(%s) returned %s", n.b, h)
 		return
 	}
+	if e.checkKnown && (h.Height() != n.b.Hght || h.Parent() != n.b.Prnt || !bytes.Equal(h.Bytes(), n.b.bytes)) {
+		e.fail("parse-wrong-block", "ParseBlock of the bytes of known block %s returned %s", n.b, h)
+		return
+	}
 	switch n.st {
 	case stKnown:
 		for _, x := range n.handles {
@@ -816,7 +925,117 @@ func (e *engine) reparse(n *node) {
 		} else {
 			e.stat["reparse_processing_other_handle"]++
 		}
+		if e.checkKnown && e.ready && !n.vacuous {
+			e.checkParsedProcessing(n, h)
+		}
+	case stAccepted:
+		e.stat["reparse_accepted"]++
+		if e.checkKnown && e.ready && n == e.last {
+			// The wrapper always knows the last accepted block (it builds and
+			// verifies on it): parsing its bytes must yield a block that carries the
+			// executed state, not a fresh never-verified one. Output is only written
+			// by the engine thread, so it can be read here.
+			e.stat["reparse_last_accepted"]++
+			if o := h.Output; !e.chain.isOutputOf(o, n.b.id) {
+				e.cc.violation("parse-known-last-accepted-unverified", "ParseBlock of the bytes of the last accepted block %s returned a wrapper without the output of its execution (Output=%v): a stale never-verified block instead of the accepted one", n.b, o)
+			}
+		}
 	}
+}
+
+// checkParsedProcessing judges the wrapper ParseBlock returned for the bytes
+// of a block the VM verified on the engine's request and that is undecided:
+// the wrapper must reflect that status. Observable through the exported API:
+// it carries the Output the chain produced for the block, and a caller that
+// verifies what it parsed does not make the chain execute the block again nor
+// produce another verified notification (one engine decision, one
+// notification). The engine keeps deciding through its own handle (n.dec).
+func (e *engine) checkParsedProcessing(n *node, h *sblock) {
+	if o := h.Output; !e.chain.isOutputOf(o, n.b.id) {
+		e.cc.violation("parse-known-processing-unverified", "ParseBlock of the bytes of processing block %s (verified by the chain, undecided) returned a wrapper without the output of its verification (Output=%v, same wrapper as the verified one: %v)", n.b, o, h == n.dec)
+	}
+	if h == n.dec && e.rng.IntN(100) >= 35 {
+		return
+	}
+	v0, _ := e.chain.marks()
+	nv0 := e.chain.notif(e.chain.nVerified, n.b.id)
+	pctx := rightCtx(n.b)
+	e.op('w', "verify parsed wrapper of processing %s same=%v", n.b, h == n.dec)
+	e.stat["reverify_parsed_processing"]++
+	var err error
+	e.r.Guard("Verify", e.cc.witness(), func() {
+		if pctx == nil && e.rng.IntN(2) == 0 {
+			err = h.Verify(e.ctx)
+		} else {
+			err = h.VerifyWithContext(e.ctx, pctx)
+		}
+	})
+	again := 0
+	for _, c := range e.chain.verifySince(v0) {
+		if c.id == n.b.id {
+			again++
+		} else {
+			e.cc.violation("verify-foreign-block", "Verify(%s) made the chain verify %s", n.b, short(c.id))
+		}
+	}
+	nv1 := e.chain.notif(e.chain.nVerified, n.b.id)
+	if again > 0 || nv1 != nv0 {
+		e.cc.violation("parse-known-processing-reverified", "Verify on the wrapper ParseBlock returned for processing block %s (same wrapper as the verified one: %v) made the chain execute the block again (%d VerifyBlock call(s), %d more verified notification(s), err=%v) although the engine took one decision about it", n.b, h == n.dec, again, nv1-nv0, err)
+		return
+	}
+	if err != nil {
+		e.cc.violation("parse-known-processing-verify-error", "Verify on the wrapper ParseBlock returned for processing block %s failed: %v", n.b, err)
+	}
+}
+
+// parseNoise hands k fresh, unrelated blocks to ParseBlock and drops them
+// (gossip of blocks the engine has no use for): it is what pushes older
+// entries out of the parsed-block cache.
+func (e *engine) parseNoise(k int) {
+	e.op('n', "parse %d unrelated blocks", k)
+	for i := 0; i < k && !e.dead; i++ {
+		e.nonce++
+		b := makeBlk(ids.ID(sha256.Sum256([]byte(fmt.Sprint("noise", e.nonce)))), 5000+e.nonce, 1, e.nonce, false, 0)
+		var h *sblock
+		var err error
+		e.r.Guard("ParseBlock", e.cc.witness(), func() { h, err = e.vm.ParseBlock(e.ctx, b.bytes) })
+		if err != nil || h == nil || h.ID() != b.id {
+			e.fail("parse-failed", "ParseBlock of well-formed bytes of %s = (%v, %v)", b, h, err)
+			return
+		}
+		e.stat["noise_parses"]++
+	}
+}
+
+// heightLog is an append-only copy of the accepted chain indexed by height
+// (C20 chains start at height 0 and grow by one), published by the engine
+// thread after each Accept returned and read lock-free by reader goroutines.
+type heightLog struct {
+	ids []ids.ID
+	n   atomic.Int64 // heights [0, n) are published
+}
+
+func newHeightLog(capacity int, genesis ids.ID) *heightLog {
+	l := &heightLog{ids: make([]ids.ID, capacity)}
+	l.ids[0] = genesis
+	l.n.Store(1)
+	return l
+}
+
+func (l *heightLog) publish(h uint64, id ids.ID) {
+	if int64(h) != l.n.Load() || int(h) >= len(l.ids) {
+		return // not the next height / full: readers keep such answers for the final check
+	}
+	l.ids[h] = id
+	l.n.Store(int64(h) + 1)
+}
+
+// get returns the accepted id of a published height.
+func (l *heightLog) get(h uint64) (ids.ID, bool) {
+	if h >= uint64(l.n.Load()) {
+		return ids.Empty, false
+	}
+	return l.ids[h], true
 }
 
 func ctxStr(c *block.Context) string {
@@ -851,6 +1070,16 @@ func (e *engine) wrongCtx(b *blk) (*block.Context, string) {
 // the right context follows (at once, or in a later step).
 func (e *engine) verify(n *node) {
 	h := n.handles[e.rng.IntN(len(n.handles))]
+	if e.firstHandleP > 0 && e.rng.IntN(100) < e.firstHandleP {
+		h = n.handles[0]
+	}
+	if len(n.handles) > 1 {
+		if h == n.handles[0] {
+			e.stat["verify_first_of_several_handles"]++
+		} else {
+			e.stat["verify_later_handle"]++
+		}
+	}
 	if e.ready && e.ctxP > 0 && e.rng.IntN(100) < 22 {
 		wrong, kind := e.wrongCtx(n.b)
 		e.stat["verify_ctx_mismatch_calls"]++
@@ -1025,6 +1254,7 @@ func (e *engine) accept(n *node, sync bool) {
 		defer e.disarmProbe(pr)
 	}
 	var err error
+	e.acceptSeq.Add(1)
 	done := kit.Go(func() {
 		e.r.Guard("Accept", e.cc.witness(), func() {
 			if sync {
@@ -1054,6 +1284,7 @@ func (e *engine) accept(n *node, sync bool) {
 			return
 		}
 	}
+	e.acceptSeq.Add(1)
 	if err != nil {
 		key := "engine-call-error"
 		if e.acceptErrKey != "" {
@@ -1082,6 +1313,9 @@ func (e *engine) accept(n *node, sync bool) {
 	e.accByH[n.b.Hght] = n.b.id
 	e.tipH = n.b.Hght
 	e.amu.Unlock()
+	if e.hlog != nil {
+		e.hlog.publish(n.b.Hght, n.b.id)
+	}
 	e.stat["accepts"]++
 	// reject the siblings' subtrees, parents before children, siblings in random order
 	sib := append([]*node(nil), old.children...)
